@@ -167,6 +167,17 @@ func (s *clientSpec) method(name string) *methodSpec {
 	return nil
 }
 
+// anyWrapped: some instance of the method in Auth is a RetryableAuthMethod (an
+// AuthCallback may hand out instances other than the first).
+func (s *clientSpec) anyWrapped(name string) bool {
+	for _, m := range s.methods {
+		if m.name == name && m.wrapped {
+			return true
+		}
+	}
+	return false
+}
+
 func (s *clientSpec) signerByBlob(b []byte) *signerSpec {
 	for _, m := range s.methods {
 		for _, sg := range m.signers {
